@@ -65,7 +65,8 @@ def scn_names(params):
             if [x.lower() for x in labels[-len(dl):]] != dl:
                 out["violations"].append(("C08:domain-suffix:real-client", "query name does not end in the tunnel domain", {"seed": seed, "cfg": cfg}))
                 break
-        if not t.ok and not out["violations"]:
+        if not t.ok and not out["violations"] and not (cfg.get("probe_blackhole") and out["stats"]["client_queries_checked"] > 5):
+            # (on a path that answers no probe the client is expected to give up; the names it sent until then were judged)
             out["inconclusive"] = (t.why or "?").split(":")[0]
             return out
         if out["stats"]["client_queries_checked"] > 20:
@@ -154,6 +155,10 @@ def run(ctx):
                         left -= n_ + 1
                     cfg["domain"] = ".".join(parts + ["org"])
                     cfg["M_spelling"] = rng.choice(["0%d", "00%d", "%d", "+%d", " %d"]) % cfg["M"]
+                if i % 6 == 5:
+                    # a path on which every fragment-size probe goes unanswered: whatever the client tries next, its names stay
+                    # within the limit it was given
+                    cfg.update(probe_blackhole=True, m=None, raw=False)
                 plist.append({"idx": i, "seed": ctx.seed * 100000 + i, "cfg": cfg})
             sysres = core.Result()
             simrun.run_scenarios(sysres, b, scn_names, plist, jobs=ctx.jobs)
